@@ -735,6 +735,14 @@ type chunk struct {
 	t     *tally
 	r     *vlib.Run
 	seq   int
+	// child-zone pollution of the current subset (aggressive evaluators only):
+	// genuine NSEC records of a delegated CHILD of the zone under test. By name
+	// they lie inside the parent, so no in-zone admission filter can tell them
+	// apart; the exact verifiers never see them (RRSIG signer validation
+	// upstream), the RFC 8198 evaluators must still never deny a parent name.
+	childExtra map[dns.RR]struct{}
+	childApex  Name
+	childOn    bool
 }
 
 func (ck *chunk) caseOf(e int, in *callIn, out callOut, truth string) CaseA {
@@ -836,6 +844,22 @@ func (ck *chunk) pollute(set []dns.RR) ([]dns.RR, string) {
 			// own and are excluded by RRSIG signer validation upstream of the
 			// evaluators (dnssec.usableSignatureCandidate); see FINDINGS.md "Scope".
 			if f.Apex.IsStrictSubOf(zr.z.Apex) {
+				chain := f.NSECChain()
+				if len(chain) == 0 {
+					return set, ""
+				}
+				ck.childExtra, ck.childApex, ck.childOn = map[dns.RR]struct{}{}, f.Apex, true
+				for k := 1 + rng.IntN(3); k > 0; k-- {
+					idx := rng.IntN(len(chain))
+					if rng.IntN(2) == 0 {
+						idx = len(chain) - 1 // the child's wrap-around NSEC (last owner -> child apex)
+					}
+					rr := dns.RR(chain[idx])
+					ck.childExtra[rr] = struct{}{}
+					set = append(set, rr)
+				}
+				// benign by construction: judged against the parent's truth, not as
+				// a "mixed set" (the evaluator cannot know the records are foreign)
 				return set, ""
 			}
 			for _, r := range f.NSECChain() {
@@ -885,8 +909,12 @@ func (ck *chunk) run() {
 			set = append(set, chain[i])
 		}
 		mix := ""
+		ck.childExtra, ck.childOn = nil, false
 		if ck.rng.IntN(10) < 3 {
 			set, mix = ck.pollute(set)
+			if ck.childOn {
+				ck.t.add("polluted_subsets/"+fam+"/child-zone", 1)
+			}
 			if mix != "" {
 				ck.t.add("polluted_subsets/"+fam+"/"+mix, 1)
 			}
@@ -908,6 +936,9 @@ func (ck *chunk) subsetNSEC(set []dns.RR, mix string) {
 	// verifiable signature), so class-polluted records never get this far.
 	var exact []dns.RR
 	for _, rr := range dnsutil.FilterRRsToZone(set, zr.signer) {
+		if _, child := ck.childExtra[rr]; child {
+			continue // signed by the child: RRSIG signer validation drops it upstream
+		}
 		if rr.Header().Class == dns.ClassINET {
 			exact = append(exact, rr)
 		}
@@ -942,6 +973,14 @@ func (ck *chunk) subsetNSEC(set []dns.RR, mix string) {
 		}
 		in.recs, in.mix = set, mix
 		in.prep, in.set = prep, aset
+		if ck.childOn && qi.q.Eff.IsSubOf(ck.childApex) {
+			// at or below the child's apex the child's own records speak the truth
+			// about the CHILD zone; the parent model has no opinion there
+			continue
+		}
+		if ck.childOn {
+			ck.t.add("child_polluted_aggressive_questions", 1)
+		}
 		for ti := range qi.types {
 			in.ti = ti
 			ck.observe(eAggNSEC, &in)
